@@ -478,6 +478,18 @@ class Env(object):
                                   and strip(x.kids[0]).kind == 'DeclRefExpr' and strip(x.kids[0]).refid == d.id]
                         if a is not None and b is not None and len(others) == 2:
                             self._ifelse[d.id] = (iff.kids[0], a, b)
+                    # T v = A; if (c) v = B;   (a default that one condition overrides)
+                    if d.kind == 'VarDecl' and self.init_of(d) is not None and i + 1 < len(kids) and kids[i + 1].kind == 'IfStmt' and len(kids[i + 1].kids) == 2:
+                        iff = kids[i + 1]
+                        b_ = iff.kids[1]
+                        b_ = b_.kids[0] if b_.kind == 'CompoundStmt' and len(b_.kids) == 1 else b_
+                        b_ = strip(b_)
+                        if b_.kind == 'BinaryOperator' and b_.op == '=' and strip(b_.kids[0]).kind == 'DeclRefExpr' and strip(b_.kids[0]).refid == d.id:
+                            others = [x for x in fn.walk() if x.kind in ('BinaryOperator', 'CompoundAssignOperator') and x.op and x.op.endswith('=') and x.op not in ('==', '!=', '<=', '>=')
+                                      and strip(x.kids[0]).kind == 'DeclRefExpr' and strip(x.kids[0]).refid == d.id]
+                            reads_self = any(x.kind == 'DeclRefExpr' and x.refid == d.id for x in list(iff.kids[0].walk()) + list(b_.kids[1].walk()))
+                            if len(others) == 1 and not reads_self:
+                                self._ifelse[d.id] = (iff.kids[0], b_.kids[1], self.init_of(d))
 
     def init_of(self, decl):
         for k in decl.kids:
